@@ -194,6 +194,13 @@ def judge(t):
             if copies and all(((h_.get('variants') or {}).get(n_) or sp.get('variant', 'ok')) in bad_ for h_ in copies):
                 F.add(n_)
                 t.world.probe('failure-known-from-ground-truth-only')
+    # ground truth: only a borrower of the requested flavour can make a failure go away
+    want_texts = bool(opts.get('genTexts'))
+    for c in t.by('borrower.getData'):
+        if c.ok and isinstance(c.comp, int) and c.comp < len(scn.get('borrowers', ())) and bool(scn['borrowers'][c.comp].get('genTexts')) != want_texts:
+            if not any(c2.ok and c2.mib == c.mib and bool(scn['borrowers'][c2.comp].get('genTexts')) == want_texts for c2 in t.by('borrower.getData') if isinstance(c2.comp, int) and c2.comp < len(scn['borrowers'])):
+                F.add(c.mib)
+                t.world.probe('failure-known-from-ground-truth-only')
     if 'NO-SUCH-MIB' in scn.get('requested', ()) and not any(c.mib == 'NO-SUCH-MIB' and c.ok for c in t.by('borrower.getData')):
         F.add('NO-SUCH-MIB')
     if not scn.get('sources'):
